@@ -157,7 +157,7 @@ void Exec::op_copy(Client &c) {
 	mpq_QSprob q = mpq_QScopy_prob(src->p, nm.c_str());
 	after_lib_call("copy");
 	if (!q) { violate("C16", "copy-failed:" + src->life, "QScopy_prob returned NULL"); return; }
-	auto o = std::make_shared<Obj>(); o->p = q; o->m = src->m; o->uid = next_uid++; o->family = src->family; o->has_sos = src->has_sos; o->repairable_names = src->repairable_names;
+	auto o = std::make_shared<Obj>(); o->p = q; o->m = src->m; o->uid = next_uid++; o->family = src->family; o->tiny_maxtime = src->tiny_maxtime; o->has_sos = src->has_sos; o->repairable_names = src->repairable_names;
 	o->life = "loaded"; o->limits_default = src->limits_default; o->iparam = src->iparam;
 	Client &dst = clients[(int)op->i("to", op->client)];
 	dst.objs.push_back(o);
@@ -224,10 +224,12 @@ void Exec::op_param(Client &c) {
 	else if (what == "maxiter") { int val = 200000 + (int)modn(v, 1000) * 13; rv = mpq_QSset_param(o->p, QS_PARAM_SIMPLEX_MAX_ITERATIONS, val); o->iparam[QS_PARAM_SIMPLEX_MAX_ITERATIONS] = val; o->limits_default = false; }
 	else if (what == "maxtime" || what == "objulim" || what == "objllim") {   // limits far beyond anything a run meets: they are parameters a copy has to carry (C16) and a getter has to give back (C06)
 		int w = what == "maxtime" ? QS_PARAM_SIMPLEX_MAX_TIME : what == "objulim" ? QS_PARAM_OBJULIM : QS_PARAM_OBJLLIM;
-		Q val = what == "maxtime" ? Q(400000 + modn(v, 1000)) : Q(0); if (what != "maxtime") { mpz_class big; mpz_ui_pow_ui(big.get_mpz_t(), 10, 140); val = Q(big) + modn(v, 1000); if (what == "objllim") val = -val; }
+		Q val = what == "maxtime" ? Q(400000 + modn(v, 1000)) : Q(0);
+		if (what == "maxtime" && modn(v, 4) == 0) { mpz_class big; mpz_ui_pow_ui(big.get_mpz_t(), 10, 200); val = Q(1) / Q(big); o->tiny_maxtime = true; }   // positive, but zero as a double: every solve of this object is an interrupted one from here on if (what != "maxtime") { mpz_class big; mpz_ui_pow_ui(big.get_mpz_t(), 10, 140); val = Q(big) + modn(v, 1000); if (what == "objllim") val = -val; }
 		QArr t(2); mpq_set(t.at(0), val.get_mpq_t()); rv = mpq_QSset_param_EGlpNum(o->p, w, t.at(0)); o->limits_default = false;
 		after_lib_call("param"); T(strf("  param %s rv=%d", what.c_str(), rv));
 		if (rv) violate("C06", "setparam-failed:" + what, "valid parameter value rejected");
+		else if (what == "maxtime" && o->tiny_maxtime && modn(v, 4) == 0) probe("param.tiny_maxtime");   // the time limit is kept as a double: 1e-200 comes back as the nearest one
 		else if (mpq_QSget_param_EGlpNum(o->p, w, t.ptr(1)) || lib_to_q(t.at(1)) != val) violate("C06", "getparam-mismatch:" + what, "set " + qstr(val) + ", read back " + qstr(lib_to_q(t.at(1))));
 		signature("param:" + what); return; }
 	else { T("  unknown param (skipped)"); return; }
